@@ -233,20 +233,48 @@ def run_session(jobs):
                 'codespace': tid}
 
     DS.run_once = stub_run_once
-    code = Toric2DCode(2, 2)
-    em = PauliErrorModel(1 / 3, 1 / 3, 1 / 3)
-    batch = BatchSimulation(first['out'], save_frequency=first['savefreq'],
-                            update_frequency=1000, verbose=False)
-    for name in first['spec']:
-        dec = MatchingDecoder(code, em, RATES[name])
-        sim = DirectSimulation(code, em, dec, RATES[name], verbose=False,
-                               compress=first['compressed'])
+    import panqec.simulation._batch_simulation as BSIM
+    BSIM.run_once = stub_run_once if hasattr(BSIM, 'run_once') else None
+
+    # every simulation that enters a BatchSimulation gets observable result
+    # containers, whichever way the batch is built
+    orig_append = BatchSimulation.append
+
+    def hooked_append(self, sim):
         hd = HookDict()
         for k, val in sim._results.items():
             hd[k] = val
         sim._results = hd
-        sims[name] = sim
-        batch.append(sim)
+        sims[NAME_OF_RATE[sim.error_rate]] = sim
+        return orig_append(self, sim)
+    BatchSimulation.append = hooked_append
+
+    via_cli = bool(first.get('via_run_file')) and len(jobs) == 1 and first['savefreq'] == 1
+    if via_cli:
+        # the path `panqec run -i input.json -o results -t N` takes: the
+        # specification is read from an input file and the batch is built by
+        # read_input_json inside run_file
+        from panqec.simulation import run_file
+        from panqec.utils import identity
+        spec_file = first['out'] + '.input.json'
+        with open(spec_file, 'w') as fh:
+            json.dump({'comments': '', 'ranges': {
+                'label': 'c12', 'code': {'name': 'Toric2DCode', 'parameters': [{'L_x': 2, 'L_y': 2}]},
+                'error_model': {'name': 'PauliErrorModel',
+                                'parameters': [{'r_x': 1 / 3, 'r_y': 1 / 3, 'r_z': 1 / 3}]},
+                'decoder': {'name': 'MatchingDecoder'},
+                'error_rate': [RATES[nm] for nm in first['spec']]}}, fh)
+        batch = None
+    else:
+        code = Toric2DCode(2, 2)
+        em = PauliErrorModel(1 / 3, 1 / 3, 1 / 3)
+        batch = BatchSimulation(first['out'], save_frequency=first['savefreq'],
+                                update_frequency=1000, verbose=False)
+        for name in first['spec']:
+            dec = MatchingDecoder(code, em, RATES[name])
+            sim = DirectSimulation(code, em, dec, RATES[name], verbose=False,
+                                   compress=first['compressed'])
+            batch.append(sim)
     for k, job in enumerate(jobs):
         if k > 0:
             # a new run on the same object: new fault plan, counters restart
@@ -261,7 +289,10 @@ def run_session(jobs):
             os._exit(137)
         outcome = 'done'
         try:
-            batch.run(job['target'])
+            if via_cli:
+                run_file(spec_file, first['out'], job['target'], progress=identity, verbose=False)
+            else:
+                batch.run(job['target'])
             if fault.fired:
                 outcome = 'paused'
         except BaseException as ex:          # noqa: the run did not complete
